@@ -1,0 +1,40 @@
+//go:build verif
+
+// Machine-checked contracts for govc (see /verif/DESIGN.md). Comments only;
+// compiled only with the build tag "verif".
+
+package radixtree
+
+// C02 / C03: what the lookup shows to the matcher and which backtracking flag governs a failure.
+//  - the values of a node are tested with that node's own wildcard keys and the values captured on
+//    the way to it; for a free (catch-all) wildcard these are the keys of the catch-all node and the
+//    captures extended by the remaining path (so conditions on a named free wildcard can be
+//    evaluated);
+//  - when no value of the reached expression is accepted, whether a less specific expression may be
+//    tried is decided by the flag of that expression's node (for a catch-all: the catch-all node's).
+//@ func (*Tree).findNode
+//@   props C02 C03
+//@   assert at call Match#1: callarg2 == n.wildcardKeys && callarg3 == captures
+//@   assert at call Match#2: callarg2 == n.catchAllChild.wildcardKeys && len(callarg3) == len(captures) + 1 && callarg3[len(captures)] == path
+//@   assert at return#2: ret0 == n && ret2 == captures && !ret3
+//@   assert at return#3: ret0 == nil && ret3 == n.backtrackingEnabled
+//@   assert at return#7: ret0 == n.catchAllChild && !ret3 && len(ret2) == len(captures) + 1
+//@   assert at return#8: ret0 == nil && ret3 == n.catchAllChild.backtrackingEnabled
+//@   assert at call findNode#1: callarg2 == captures && hasSuffix(path, callarg1)
+//@   assert at call findNode#2: callarg0 == n.wildcardChild && hasSuffix(path, callarg1)
+//@   assert at call findNode#2: len(callarg2) == len(captures) + 1
+//@   assert at call findNode#2: len(callarg2[len(callarg2) - 1]) > 0 && !contains(callarg2[len(callarg2) - 1], "/")
+//@   assert at return#1: ret0 == nil && ret3
+//@   assert at return#4: ret0 != nil || !ret3
+//@   assert at return#5: ret0 != nil
+//@   assert at return#6: ret0 == nil && !ret3
+//@   assert at return#9: ret0 == nil && ret3
+
+// the end of the current path segment: the index of the first '/' or the length of the path; the
+// segment itself contains no '/'
+//@ func (*Tree).nextSeparator
+//@   props C02 C03
+//@   modifies nothing
+//@   ensures 0 <= ret0 && ret0 <= len(path)
+//@   ensures ret0 < len(path) ==> path[ret0] == 47
+//@   ensures !contains(substr(path, 0, ret0), "/")
